@@ -14,7 +14,7 @@ RULE = ('one case = one scripted server with a moduli policy (subset of {512,768
         'OpenSSH, Dropbear or unknown banner, audited for real (quick: all subsets of size <= 2 and all suffix subsets; thorough: all 511 subsets).  Oracle: reported size == model(min over the fixed probe sequence of what the policy hands out; '
         'OpenSSH + 2048 => answer to the 2048-3072-4096 probe) and == the same function of the GEX_REQUESTs the peer actually logged; differential 2048/3072 threshold oracle against a 4096-bit baseline; '
         'refusing / stalling / garbage servers get no size.  Non-trivial: >= 1 GEX_REQUEST logged and a size verdict compared; distinct = distinct (policy, algorithms, banner)')
-REQUIRED = {'gex_requests_logged': 200, 'size_verdicts': 40, 'below_2048': 5, 'warn_band': 5, 'no_size_expected': 5, 'openssh_second_pass': 3, 'fault_cases': 3}
+REQUIRED = {'multi_target_sizes': 8, 'gex_requests_logged': 200, 'size_verdicts': 40, 'below_2048': 5, 'warn_band': 5, 'no_size_expected': 5, 'openssh_second_pass': 3, 'fault_cases': 3}
 ASSUMPTIONS = ['moduli policies are monotone (a larger request never yields a smaller modulus)',
                'for sizes below 2048 only "at least one extra failure note" is demanded (the tool replaces the generic SHA-1 failure text of the sha1 variant by the size text)',
                'the OpenSSH explanatory note is demanded only when the follow-up probe returns a size different from 2048']
@@ -47,6 +47,8 @@ def cases(tier, seed):
             for b, a in combos:
                 i += 1
                 cs.append({'kind': 'policy', 'sizes': s, 'style': style, 'banner': b, 'algs': a, 'render': 'json' if i % 3 == 0 else 'text'})
+    for i, order in enumerate([[2048, 4096, 1024], [1024, 2048, 4096, 3072], [4096, 2048, 2048, 8192], [3072, 1024, 2048]] if tier == 'quick' else [list(p_) for p_ in itertools.permutations([1024, 2048, 3072, 4096], 3)]):
+        cs.append({'kind': 'multi', 'order': order, 'threads': [1, 2][i % 2], 'algs': [[GEX256], [GEX1, GEX256]][i % 2], 'render': ['json', 'text'][i % 2], 'style': 'strict', 'banner': 'unknown'})
     faults = [('refuse', None), ('stall', {'at': 'gexgroup', 'op': 'stall_before'}), ('garbage', {'at': 'gexgroup', 'op': 'random', 'seed': 7}), ('truncated', {'at': 'gexgroup', 'op': 'truncate', 'offset': 9, 'then': 'close'}),
               ('close', {'at': 'gexgroup', 'op': 'close_before'}), ('wrong-type', {'at': 'gexgroup', 'op': 'patch', 'offset': 5, 'hex': '32'})]
     for name, f in faults:
@@ -119,7 +121,71 @@ def extra(notes, base):
     return out
 
 
+def run_multi(c):
+    """Several servers with different single-size moduli files in one -T run: each target's size and rating follow its own modulus."""
+    from harness import multi
+    targets = []
+    for i, sz in enumerate(c['order']):
+        script = {'banner': BANNERS['unknown'], 'kex': audit.sym_kex(['curve25519-sha256'] + c['algs'], ['ssh-ed25519'], ['aes128-ctr'], ['hmac-sha2-256']), 'hostkeys': {'ssh-ed25519': {'type': 'ed25519'}}, 'gex': {'sizes': [sz], 'style': 'strict'}}
+        targets.append(multi.Target('m%d-%d' % (i, sz), script))
+    try:
+        res = multi.run_multi(targets, c['threads'], c['render'], timeout=240)
+        base_r, base_p = audit.audit_server(dict(targets[0].script, gex={'sizes': [4096], 'style': 'strict'}), ['-j'] if c['render'] == 'json' else ['-n'], timeout=120)
+    finally:
+        for t in targets:
+            t.stop()
+    viol, counters = [], {'multi_target_sizes': 0, 'gex_requests_logged': sum(t.peer.count('gex-request') for t in targets), 'size_verdicts': 0}
+    if base_r.status not in (0, 2, 3):
+        return {'verdict': 'inconclusive', 'why': 'baseline failed'}
+    base = observe(base_r, c['render'], c['algs'])
+
+    class _R:
+        pass
+    for t, sz in zip(targets, c['order']):
+        want = sz if sz <= 4096 else None
+        if c['render'] == 'json':
+            docs = (res.get('docs') or {}).get(t.spec) or []
+            if not docs:
+                viol.append(_v('C12/multi-target-entry-missing', 'no JSON entry for a target', target=t.name))
+                continue
+            rr = _R()
+            rr.out = json.dumps(docs[0])
+        else:
+            blocks = (res.get('blocks') or {}).get(t.spec) or []
+            if not blocks:
+                viol.append(_v('C12/multi-target-entry-missing', 'no block for a target', target=t.name))
+                continue
+            rr = _R()
+            rr.out = blocks[0]
+        obs = observe(rr, c['render'], c['algs'])
+        for alg in c['algs']:
+            o = obs.get(alg)
+            if o is None:
+                viol.append(_v('C12/alg-missing', 'advertised group exchange absent from a target\'s result', alg=alg))
+                continue
+            counters['multi_target_sizes'] += 1
+            counters['size_verdicts'] += 1
+            if o['bits'] != want:
+                viol.append(_v('C12/size-wrong:multi-target', 'in a multi-target run a target\'s modulus size differs from what that server hands out', target=t.name, got=o['bits'], want=want, order=c['order']))
+                continue
+            if want is None:
+                continue
+            ex = extra(o['notes'], base[alg]['notes'])
+            band = 'fail' if want < 2048 else 'warn' if want < 3072 else 'none'
+            ok = (len(ex['fail']) >= 1 and not ex['warn']) if band == 'fail' else (len(ex['warn']) == 1 and not ex['fail'] and not ex['warn_lost']) if band == 'warn' else (not ex['fail'] and not ex['warn'] and not ex['fail_lost'] and not ex['warn_lost'])
+            if not ok:
+                viol.append(_v('C12/size-rating-wrong:multi-target:' + band, 'in a multi-target run a target\'s modulus notes do not follow its own size', target=t.name, bits=want, extra=ex, order=c['order'], threads=c['threads']))
+    seen, uniq = set(), []
+    for v in viol:
+        if v['key'] not in seen:
+            seen.add(v['key'])
+            uniq.append(v)
+    return {'violations': uniq, 'counters': counters, 'nontrivial': counters['multi_target_sizes'] > 0, 'sample': {'case': c, 'observed': counters}, 'sample_kind': 'multi'}
+
+
 def run_case(c):
+    if c['kind'] == 'multi':
+        return run_multi(c)
     gex = {'sizes': c['sizes'], 'style': c['style']} if c['kind'] == 'policy' else ({'sizes': [2048, 4096], 'style': 'strict'} if c['fault'] != 'refuse' else None)
     script = {'banner': BANNERS[c['banner']], 'kex': audit.sym_kex(['curve25519-sha256'] + c['algs'], ['ssh-ed25519'], ['aes128-ctr'], ['hmac-sha2-256']),
               'hostkeys': {'ssh-ed25519': {'type': 'ed25519'}}, 'gex': gex, 'linger': 6}
